@@ -87,7 +87,7 @@ def clang_analyzer_crossref():
     for h in hits:
         fn = None
         for name, f in tu.functions.items():
-            if f.line <= h["line"] <= tu.line_of(f.end):
+            if f.line is not None and f.line <= h["line"] <= tu.line_of(f.src_end):
                 fn = name
         covered = fn is not None and fn in known if "status" in h["message"] else None
         res.append(dict(h, function=fn, reported_or_allowlisted_by_C10_R4=covered))
